@@ -61,7 +61,9 @@ class VCSink:
     def check(self, path, name, claim, axioms=(), site=None, describe=None, model_of=None, timeout_ms=None, prefer=(), isolated=False, guided_free=None, structural_claim=False):
         """name: VC id without the property prefix. describe(model)->dict builds the candidate's
         concrete input from the model."""
-        if isolated:
+        from . import core as _core
+        if isolated or _core.z3.is_false(_core.z3.simplify(_core.lift(claim))):
+            # (a claim that is false outright only needs a model of the path condition)
             r, m, nontrivial = path.check_isolated(claim, axioms, timeout_ms or 30000, prefer)
         else:
             r, m, nontrivial = path.check(claim, axioms, timeout_ms, prefer)
